@@ -17,9 +17,9 @@ func init() {
 		Explanation: "Iteration, placement and permutation rules over slice.go, filter.go, shuffle.go (engines E3/E4): PT5/PT1 Map, ForEach, Reduce scan forward and ForEachRight backward, completely, and call the callback exactly once per iteration on the element just read (Map stores fn(v) at the element's index, Reduce threads the accumulator); " +
 			"PV3 Filter, DropWhile, DropRightWhile and Partition append the element just read under exactly the decision the function promises (fn true / false, part 0 / part 1) - every element lands in exactly the part its predicate dictates - and mapByIndex (GroupBy) appends origSlice[i] to the group of mapSlice[i]; Reject splices s[:i]+s[i+1:] exactly under fn(s[i]) and re-examines index i; " +
 			"Merge appends s, then params[0], params[1], ... in a complete forward scan onto fresh storage; Flatten's accumulator grows by appends only, is threaded through the recursion and malformed nesting is an error; PV4 Shuffle copies the whole input and then only swaps cells of the copy, Reverse and ReverseStr only swap in a two-pointer walk; " +
-			"Zip/Unzip store result[a][b] = slices[b][a] resp. result[b][a] = slices[a][b] with both indices scanning completely, behind the square-shape rejections; Chunk appends only windows slice[i:..] that start at a multiple of size and are dominated by i < len(slice) (never an empty chunk) and rejects size <= 0; Drop's re-slices are dominated by Abs(n) < len(slice); GS1/GS2 hygiene.",
+			"Zip/Unzip store result[a][b] = slices[b][a] resp. result[b][a] = slices[a][b] with both indices scanning completely, behind the square-shape rejections; Chunk appends only windows slice[i:..] that start at a multiple of size and are dominated by i < len(slice) (never an empty chunk) and rejects size <= 0; BD2 Drop: premise (loop-free, + - and comparisons, forms of (len, n) with small coefficients) decided on the SSA, then the window returned is tabulated over len 0..8 x n -11..11 against 'min(|n|, len) elements dropped from the front (n > 0) or the back (n < 0)', out-of-range bounds being a panic; GS1/GS2 hygiene.",
 		Assumptions: []string{"go/ssa faithful to the source", "Go append/copy/re-slice semantics", "user callbacks are pure"},
-		NotDecided:  []string{"Chunk's window arithmetic beyond start/non-emptiness", "that Drop removes exactly |n| elements", "uniformity of Shuffle", "involution of Reverse beyond 'only swaps, two-pointer'"},
+		NotDecided:  []string{"Chunk's window arithmetic beyond start/non-emptiness", "uniformity of Shuffle", "involution of Reverse beyond 'only swaps, two-pointer'"},
 		Run:         runC12,
 	})
 }
@@ -552,33 +552,7 @@ func runC12(p *core.Program, r *core.Report) {
 	}
 
 	// ---------------- Drop
-	if fn := c.fn("gogu.Drop"); fn != nil {
-		x := newPathCtx(p)
-		sl := ssa.Value(fn.Params[0])
-		n := 0
-		for _, in := range path.Instrs(fn) {
-			win, ok := in.(*ssa.Slice)
-			if !ok || win.X != sl {
-				continue
-			}
-			n++
-			fs := edgeFacts(x, fn, win.Block())
-			inside := hasFact(fs, "gogu.Abs(n)", "<", "len(slice)")
-			c.ob("PT3", "gogu.Drop", "re-slice only when |n| < len", p.InstrPos(win), inside, "a re-slice is not dominated by Abs(n) < len(slice): it can panic or return the wrong part")
-			lo, hi := "", ""
-			if win.Low != nil {
-				lo = x.path(win.Low)
-			}
-			if win.High != nil {
-				hi = x.path(win.High)
-			}
-			// n == 0 drops nothing from either end, so it may go either way
-			front := lo == "n" && hi == "" && (hasFact(fs, "n", ">", "0") || hasFact(fs, "n", ">=", "0"))
-			back := lo == "" && hi == "(len(slice)-gogu.Abs(n))" && (hasFact(fs, "n", "<=", "0") || hasFact(fs, "n", "<", "0"))
-			c.ob("AG6", "gogu.Drop", "drops from the front for n > 0, from the back otherwise", p.InstrPos(win), front || back, fmt.Sprintf("the view returned is slice[%s:%s]; expected slice[n:] under n > 0 or slice[:len(slice)-Abs(n)] otherwise", lo, hi))
-		}
-		c.ob("AG6", "gogu.Drop", "two views", c.fpos(fn), n == 2, "expected the two re-slices (front and back)")
-	}
+	checkDropTable(c)
 }
 
 // isStrideInduction: v is a phi whose step is +size.
@@ -624,4 +598,105 @@ func reversesInPlace(c rc, fn *ssa.Function, sl ssa.Value) (okSwap, okLoop bool)
 		}
 	}
 	return okSwap, okLoop
+}
+
+// checkDropTable (rule BD2, see c13nth.go): Drop's answer is a piecewise-affine function
+// of (len, n). Premise decided on the SSA (loop-free; + - unary minus and comparisons;
+// forms a*len + b*n + c with |a|+|b| <= 2, |c| <= 1 at every comparison and slice bound),
+// then the outcome - the window [lo:hi] of the argument that is returned, the empty
+// slice, or out-of-range bounds = panic - is tabulated over len 0..8 x n -11..11 against
+// the statement: n > 0 drops min(n, len) elements from the front, n < 0 drops min(|n|, len)
+// from the back, n == 0 drops nothing. It replaces a rule that recognised the two
+// re-slices by their spelling.
+func checkDropTable(c rc) {
+	p := c.p
+	name := "gogu.Drop"
+	fn := c.fn(name)
+	if fn == nil {
+		return
+	}
+	if len(fn.Params) != 2 || !isIntType(fn.Params[1].Type()) {
+		c.und("BD2", name, "window table", c.fpos(fn), "Drop no longer takes (slice, integer)")
+		return
+	}
+	sl, n := fn.Params[0], fn.Params[1]
+	okP, why := affinePremise(p, fn, map[*ssa.Parameter]affN{n: {coef: 1, ok: true}}, 0, 2, 1)
+	c.r.Obligation("BD2", true, map[string]any{"rule": "BD2", "function": name, "object": "premise: loop-free, integers combined by + - and comparisons, forms of (len, n) with small coefficients", "holds": okP})
+	if !okP {
+		c.und("BD2", name, "window arithmetic is piecewise affine with small coefficients", c.fpos(fn), "the table over lengths 0..8 and counts -11..11 decides Drop only when its tests and slice bounds are forms ±len ± n + c with small coefficients: "+why)
+		return
+	}
+	c.r.Floor("BD2", 200)
+	reported := map[string]bool{}
+	for L := int64(0); L <= 8; L++ {
+		for k := int64(-11); k <= 11; k++ {
+			out, ok, why := miniEval(fn, map[*ssa.Parameter]mv{n: {k: mvInt, n: k}}, miniEnv{p: p, slice: sl, length: L})
+			if !ok {
+				c.und("BD2", name, "window table", c.fpos(fn), "Drop cannot be followed by the table's evaluator ("+why+")")
+				return
+			}
+			wantLo, wantHi := int64(0), L
+			switch {
+			case k > 0:
+				wantLo = k
+				if wantLo > L {
+					wantLo = L
+				}
+			case k < 0:
+				wantHi = L + k
+				if wantHi < 0 {
+					wantHi = 0
+				}
+			}
+			okV := true
+			reason := ""
+			switch {
+			case out.panics:
+				okV, reason = false, "panics ("+out.why+")"
+			case len(out.results) != 1:
+				okV, reason = false, "does not return one value"
+			default:
+				r := out.results[0]
+				gotLo, gotHi := int64(0), int64(0)
+				switch r.k {
+				case mvSub:
+					gotLo, gotHi = r.n, r.m
+				case mvSlice:
+					gotLo, gotHi = 0, L
+				case mvNil, mvZero:
+				default:
+					okV, reason = false, "returns something other than a window of the argument or an empty slice"
+				}
+				if okV && !(gotLo == wantLo && gotHi == wantHi) && !(gotLo == gotHi && wantLo == wantHi) {
+					okV = false
+					reason = fmt.Sprintf("returns slice[%d:%d], the definition wants slice[%d:%d]", gotLo, gotHi, wantLo, wantHi)
+				}
+			}
+			c.r.Obligation("BD2", okV, map[string]any{"rule": "BD2", "function": name, "len": L, "n": k, "ok": okV})
+			if !okV {
+				region := "n > len"
+				switch {
+				case k == 0:
+					region = "n = 0"
+				case k > 0 && k < L:
+					region = "0 < n < len"
+				case k == L:
+					region = "n = len"
+				case k < 0 && -k < L:
+					region = "-len < n < 0"
+				case k == -L:
+					region = "n = -len"
+				case k < -L:
+					region = "n < -len"
+				}
+				if L == 0 {
+					region = "empty slice, " + region
+				}
+				if !reported[region] {
+					reported[region] = true
+					c.r.Violation(coreDiag("BD2", name, region, c.fpos(fn), fmt.Sprintf("Drop(slice of length %d, %d) %s", L, k, reason)))
+				}
+			}
+		}
+	}
 }
